@@ -35,6 +35,18 @@ class Module:
                 for sub in node.body:
                     if isinstance(sub, (ast.FunctionDef, ast.AsyncFunctionDef)):
                         self.funcs[node.name + '.' + sub.name] = sub
+        # nested function definitions are units of their own (none exist in the reference closure); they are
+        # registered so that effect scans over all_funcs() cannot be evaded by wrapping code in a local def
+        for name, f in list(self.funcs.items()):
+            todo = list(ast.iter_child_nodes(f))
+            while todo:
+                n = todo.pop()
+                if isinstance(n, (ast.FunctionDef, ast.AsyncFunctionDef)):
+                    self.funcs[name + '.<locals>.' + n.name] = n
+                    continue
+                if isinstance(n, ast.ClassDef):
+                    continue
+                todo.extend(ast.iter_child_nodes(n))
 
 
 def local_binding_order(fn):
@@ -215,7 +227,9 @@ def U(node):
         return ast.dump(node)
 
 
-_SCOPE = (ast.FunctionDef, ast.AsyncFunctionDef, ast.Lambda, ast.ClassDef)
+# A lambda body is a bare expression evaluated on behalf of the enclosing function: effect scans must see it
+# (seed C01-e hid a heap-list append in a lambda), so it is NOT a scope boundary for walk_local.
+_SCOPE = (ast.FunctionDef, ast.AsyncFunctionDef, ast.ClassDef)
 
 
 def walk_local(node):
